@@ -396,7 +396,8 @@ def matlab_tree_facts(files):
             continue
         m = re.search(r'^classdef (\w+) < ([\w.]+)', text, re.M)
         if not m:
-            out[path] = ("function", re.findall(r'^function .*?(\w+)\(varargin\)', text, re.M))
+            # the function's name and how many overloads (call sites of the gateway) its file dispatches to
+            out[path] = ("function", re.findall(r'^function .*?(\w+)\(varargin\)', text, re.M), len(re.findall(r'\w+_wrapper\(\d+', text)))
             continue
         if "enumeration" in text:
             out[path] = ("enum", m.group(1), re.findall(r'^\s+(\w+)\((\d+)\)', text, re.M))
